@@ -108,9 +108,9 @@ def case(item):
 
     states = oracle.all_states(n, outliers=True)
     s = states[si]
-    op = {"none": 0.0, "tiny": 1e-4, "big": 0.3, "het": 0.3}[op_mode]
+    op = {"none": 0.0, "tiny": 1e-4, "big": 0.3, "het": 0.3, "het0": 0.3}[op_mode]
     data = oracle.make_data(n, dims=(2 if kind == "generic2" else 1), grid=3, kind=("generic" if kind == "generic2" else kind), seed=seed,
-                            outlier_prob=op, het=(op_mode == "het"))
+                            outlier_prob=op, het=("zeros" if op_mode == "het0" else op_mode == "het"))
     res = {"item": item, "problems": [], "evals": 0, "worst": 0.0, "hashes": None}
     try:
         vs = variants(s, data, n)
@@ -320,7 +320,7 @@ def identity_cross(n):
 
 def main(tier, seed):
     chk = Check("C03", tier, seed)
-    chk.rule = ("every tree over n<=4 data points incl. every outlier subset (427 trees) x alpha {0.3,1,2.5} x outlier prior {0,1e-4,0.3,heterogeneous} x data "
+    chk.rule = ("every tree over n<=4 data points incl. every outlier subset (427 trees) x alpha {0.3,1,2.5} x outlier prior {0,1e-4,0.3,heterogeneous,heterogeneous with zeros} x data "
                 "alphabet; each tree built post-order, reversed siblings, from_dict, relabelled, in EVERY compatible SMC data order (n<=3) and via "
                 "prune-regraft; log_p, log_p_one and the fused variant vs the closed-form model with the literal-sum data term; all pairs of trees for "
                 "==/hash; every tree over 3 clustered data points produced by the real loader from input + cluster files in three layouts x 1-3 samples "
@@ -332,9 +332,9 @@ def main(tier, seed):
         ns = len(oracle.all_states(n, outliers=True))
         for si in range(ns):
             kinds = ["generic", "flat", "peaked", "seeded", "generic2"]
-            ops = ["none", "tiny", "big", "het"]
+            ops = ["none", "tiny", "big", "het", "het0"]
             if n == 4 and tier == "quick":
-                combos = [(kinds[si % 5], ops[si % 4]), (kinds[(si + 2) % 5], ops[(si + 1) % 4])]
+                combos = [(kinds[si % 5], ops[si % 5]), (kinds[(si + 2) % 5], ops[(si + 1) % 5]), (kinds[(si + 3) % 5], "het0")]
             else:
                 combos = [(k, o) for k in kinds for o in ops]
                 if tier == "quick":
